@@ -823,23 +823,32 @@ class Workspace(_ChannelSummaryMixin, dict):
         """
         workspace = copy.deepcopy(dict(channels=model.spec['channels']))
         workspace['version'] = schema.version
+        parameters = []
+        for parset_name, parset_spec in model.config.par_map.items():
+            paramset = parset_spec['paramset']
+            parameter = {
+                "bounds": [list(x) for x in paramset.suggested_bounds],
+                "inits": paramset.suggested_init,
+                "name": parset_name,
+            }
+            try:
+                parameter["fixed"] = paramset.suggested_fixed_as_bool
+            except RuntimeError:
+                # mixed per-bin flags are derived from the modifier data again
+                pass
+            if paramset.constrained:
+                parameter["auxdata"] = [float(x) for x in paramset.auxdata]
+                if paramset.pdf_type == 'normal' and hasattr(paramset, 'sigmas'):
+                    parameter["sigmas"] = [float(x) for x in paramset.sigmas]
+                if paramset.pdf_type == 'poisson':
+                    parameter["factors"] = [float(x) for x in paramset.factors]
+            parameters.append(parameter)
         workspace['measurements'] = [
             {
                 'name': name,
                 'config': {
                     'poi': model.config.poi_name,
-                    'parameters': [
-                        {
-                            "bounds": [
-                                list(x)
-                                for x in parset_spec['paramset'].suggested_bounds
-                            ],
-                            "inits": parset_spec['paramset'].suggested_init,
-                            "fixed": parset_spec['paramset'].suggested_fixed_as_bool,
-                            "name": parset_name,
-                        }
-                        for parset_name, parset_spec in model.config.par_map.items()
-                    ],
+                    'parameters': parameters,
                 },
             }
         ]
